@@ -1,10 +1,10 @@
 from vlib import Obl, PORTFOLIO
 
 TITLE = 'Repair converges and a good file is never modified by reading'
-LEVEL_TEXT = ('bounded symbolic verification that the read path issues no backend write: raw layer over a symbolic image with any 3 navigation/read calls; '
-              'jls_rd_open decision to enter the repair branch')
+LEVEL_TEXT = ('bounded symbolic verification that the read path issues no backend write (raw layer over a symbolic image) and that the real jls_rd_open enters the repair '
+              'branch only for a file whose last valid chunk is not END')
 TRUSTED = ['cbmc 6.11', 'membk.c (a file opened "r" rejects writes, as O_RDONLY does)', 'crcfun.c']
-OUTSIDE = ['idempotence of repair over all crash images (inherits C03)', 'whole reader sessions on real files', 'the navigation calls (next/prev/item/scan) and jls_rd_open\'s decision to enter the repair branch: the 3-call navigation harness (MODE_RDONLY in c04_raw.c) ran out of memory at 11 GB and is not claimed']
+OUTSIDE = ['idempotence of repair over all crash images (inherits C03)', 'whole reader sessions on real files', 'the raw navigation calls (next/prev/item/scan): the 3-call navigation harness (MODE_RDONLY in c04_raw.c) ran out of memory at 11 GB and is not claimed']
 EXPLANATION = ('O1: jls_raw_open("r") on a symbolic file image, jls_raw_rd of a fully symbolic chunk, close: the backend write log and truncate counter of the in-memory backend stay empty; '
                'the same for every possible 32-byte file header. A file opened "r" rejects writes in the model exactly as O_RDONLY does, so a write attempt would also surface as an error path.')
 
@@ -21,4 +21,11 @@ def obligations(tier):
                  unwind=40, timeout=600, backend=PORTFOLIO,
                  desc='jls_raw_open("r") (+ close) on any 32-byte file header and file length 0..40: no backend write, no truncate, whether or not the open succeeds',
                  bound='all 2^256 file headers'))
+    o.append(Obl('O2_rd_open_repair_decision', 'c19_open.c', units=['reader.c', 'buffer.c'],
+                 defines=['JLS_VERIF_SIGNAL_COUNT=3', 'JLS_VERIF_SOURCE_COUNT=2', 'JLS_VERIF_FSR_BUFFER_U64=2', 'JLS_VERIF_BUF_DEFAULT_SIZE=64', 'JLS_VERIF_BUF_STRING_SIZE=16'],
+                 unwind=8, typed_calloc=True, timeout=600, backend=PORTFOLIO,
+                 desc='real jls_rd_open/jls_rd_close over contract stubs: the repair branch (append mode, truncate, rewrite, pointer repair, summary rebuild, END) is entered iff the '
+                      'last valid chunk is not END; symbolic last tag, with and without FSR data (the first-sample-id scan overwrites chunk_cur like the real one)',
+                 bound='one FSR signal; every step succeeds',
+                 assumes=['contract stubs for everything jls_rd_open calls (core.c, raw.c, track.c, wr_fsr.c not linked)']))
     return o
